@@ -96,13 +96,20 @@ def generate_epi(rng, i):
             a = gen_epi.gen_action(rng, env)
             a[victim] = {"long": 0.3, "short": -0.3, "flat": 0.0}[hold]
             op["action"] = a
+    again = False
+    if not expiry_arm and rng.random() < 0.35:
+        # the same episode once more on the same environment (possibly after abandoning the first one mid-way): what
+        # the first run consumed - latent batches, the victim's missing quote - is there again
+        first = script if rng.random() < 0.6 else script[:rng.randint(2, len(script))]
+        script = first + [dict(op) for op in script]
+        again = True
     if expiry_arm and rng.random() < 0.5:
         env["prior_env"] = True         # the transmitter served another environment (other contracts) before this one was built
     clock0 = "1999-01-01T00:00:00"
     if expiry_arm and rng.random() < 0.6:
         clock0 = "2019-06-03T00:00:00"          # a stale clock, past the expiry, when the environment is built
     return {"kind": "epi", "envs": [env], "clock0": clock0, "script": script, "prng": rng.randrange(2 ** 31),
-            "meta": {"victim": victim, "k0": k0, "fault": kind, "hold": hold, "fold": fold, "stale_clock": clock0 != "1999-01-01T00:00:00"}}
+            "meta": {"victim": victim, "k0": k0, "fault": kind, "hold": hold, "fold": fold, "stale_clock": clock0 != "1999-01-01T00:00:00", "again": again}}
 
 
 def execute_epi(scenario):
@@ -140,10 +147,14 @@ def execute_epi(scenario):
                 out[sym] = b
         return out
 
-    for ep in h.episodes:
+    for ei, ep in enumerate(h.episodes):
         if ep["failed"]:
             break
         steps_model = epicheck.visited_steps(dmodel, env_spec, ep)
+        if ei > 0:
+            probe("env_episode_repeated_on_the_same_environment")
+            if env_spec["latency_us"] > 0 and meta.get("fault") in ("disc", "both", "bid", "ask"):
+                probe("env_repeated_episode_with_latency_and_quote_fault")
         if meta.get("fold"):
             probe("env_episode_starts_after_discontinuation_in_latency_window")
         if meta.get("fault") == "expiry":
